@@ -223,6 +223,12 @@ func transportAnnouncement(c *core.Ctx) {
 			}
 			k, isK := core.ConstInt(res(r)[0])
 			if !isK {
+				// return len(es) > 1  where the read succeeded
+				if t, _ := more(res(r)[0]); t && core.Dominated(r, okErr) {
+					n += 2
+				} else {
+					good = false
+				}
 				return
 			}
 			n++
@@ -313,5 +319,139 @@ func requiredRoutes(c *core.Ctx) {
 	})
 	for _, r := range []string{"/pair-setup", "/pair-verify", "/pairings", "/accessories", "/characteristics", "/identify"} {
 		c.Check(have[r], "route-registered:"+r, f.Pos(), "route "+r+" is registered", "route "+r+" is not registered: a controller gets 404 for a request the specification requires the accessory to answer")
+	}
+}
+
+// configLoadPolarity (C20-R1): what was stored is taken over exactly where reading it succeeded.
+func configLoadPolarity(c *core.Ctx) {
+	p := c.P
+	f := p.Func("", "(*Config).load")
+	if f == nil {
+		c.Undecided("config-load", token.NoPos, "(*Config).load not found")
+		return
+	}
+	n := 0
+	for _, spec := range []struct{ key, fld string }{{"uuid", "id"}, {"version", "version"}, {"configHash", "configHash"}} {
+		var get *ssa.Call
+		core.Instrs(f, func(i ssa.Instruction) {
+			if call, ok := i.(*ssa.Call); ok && core.IsInvoke(call, mod+"/util.Storage", "Get") {
+				if s, isK := core.ConstString(call.Call.Args[0]); isK && s == spec.key {
+					get = call
+				}
+			}
+		})
+		if get == nil {
+			c.Bad("config-load:"+spec.key, f.Pos(), "the stored %q is never read: the value changes on every start", spec.key)
+			continue
+		}
+		okRead := errNilFact(1, func(i ssa.Instruction) bool { return i == ssa.Instruction(get) })
+		stored, good := false, true
+		core.Instrs(f, func(i ssa.Instruction) {
+			st, ok := i.(*ssa.Store)
+			if !ok {
+				return
+			}
+			if _, isF := core.FieldAddrOf(st.Addr, tConfig, spec.fld); !isF {
+				return
+			}
+			// the stored value derives from what this Get returned
+			from := false
+			walkOperands(st.Val, 6, func(v ssa.Value) {
+				if core.CallResult(v, 0, func(ci ssa.Instruction) bool { return ci == ssa.Instruction(get) }) != nil {
+					from = true
+				}
+			})
+			if !from {
+				return
+			}
+			stored = true
+			if !core.Dominated(st, okRead) {
+				good = false
+			}
+		})
+		n++
+		c.Check(stored && good, "config-load:"+spec.key, get.Pos(), "the stored value is taken over on the branch where reading it succeeded", "the stored "+spec.key+" is not taken over where reading it succeeded (test inverted or assignment missing): the accessory forgets its "+spec.key+" on every restart")
+	}
+}
+
+// contentHashCovers (C20-R3): the hash is computed over the marshalled database, with exactly the value members removed.
+func contentHashCovers(c *core.Ctx) {
+	p := c.P
+	if f := p.Func("accessory", "(*Container).ContentHash"); f != nil {
+		fed := false
+		core.Instrs(f, func(i ssa.Instruction) {
+			cc := core.CallOf(i)
+			if cc == nil || !cc.IsInvoke() || cc.Method.Name() != "Write" {
+				return
+			}
+			if core.AnySource(cc.Args[0], func(s ssa.Value) bool {
+				return core.CallResult(s, 0, func(ci ssa.Instruction) bool { return core.IsCall(ci, "encoding/json.Marshal") }) != nil
+			}) {
+				fed = true
+			}
+		})
+		sum := returnsOnly(f, func(v ssa.Value) bool {
+			call, ok := v.(*ssa.Call)
+			return ok && call.Call.IsInvoke() && call.Call.Method.Name() == "Sum"
+		})
+		c.Check(fed && sum, "hash-covers-database@"+fname(f), f.Pos(), "the hash function is fed the marshalled database and its sum is returned", "the content hash is not computed over the marshalled database (nothing is written to the hash): the configuration number never changes")
+	}
+	if f := p.Func("accessory", "deleteFieldFromDict"); f != nil {
+		isField := core.CmpFact(func(x, y ssa.Value) (bool, bool) {
+			if len(f.Params) > 1 && (x == ssa.Value(f.Params[1]) || y == ssa.Value(f.Params[1])) {
+				return true, false
+			}
+			return false, false
+		})
+		n, good := 0, true
+		core.Instrs(f, func(i ssa.Instruction) {
+			call, ok := i.(*ssa.Call)
+			if !ok {
+				return
+			}
+			if b, isB := call.Call.Value.(*ssa.Builtin); isB && b.Name() == "delete" {
+				n++
+				if !core.Dominated(call, isField) {
+					good = false
+				}
+			}
+		})
+		c.Check(n > 0 && good, "hash-removes-only-the-field@"+fname(f), f.Pos(), "a member is deleted exactly where its name equals the field", "members are deleted where their name differs from the field (test inverted): everything but the values is removed from the hashed document")
+	}
+}
+
+// accessoryComposition (C14-R1): AddService appends the service, and a new accessory carries its information service.
+func accessoryComposition(c *core.Ctx) {
+	p := c.P
+	if f := p.Func("accessory", "(*Accessory).AddService"); f != nil {
+		ok := false
+		core.Instrs(f, func(i ssa.Instruction) {
+			st, isSt := i.(*ssa.Store)
+			if !isSt || len(f.Blocks) != 1 {
+				return
+			}
+			if _, isF := core.FieldAddrOf(st.Addr, mod+"/accessory.Accessory", "Services"); !isF {
+				return
+			}
+			if call, isC := st.Val.(*ssa.Call); isC {
+				if b, isB := call.Call.Value.(*ssa.Builtin); isB && b.Name() == "append" {
+					for _, x := range appendedValues(call) {
+						if valIs(x, f.Params[1]) {
+							ok = true
+						}
+					}
+				}
+			}
+		})
+		c.Check(ok, "add-service-appends@"+fname(f), f.Pos(), "AddService appends the service to the accessory", "AddService does not append the service: accessories are published without it")
+	}
+	if f := p.Func("accessory", "New"); f != nil {
+		ok := false
+		core.Instrs(f, func(i ssa.Instruction) {
+			if g := core.Callee(i); g != nil && cn(g) == "AddService" {
+				ok = true
+			}
+		})
+		c.Check(ok, "info-service-added@"+fname(f), f.Pos(), "a new accessory gets its accessory-information service", "accessory.New does not add the accessory-information service (required first service of every accessory)")
 	}
 }
